@@ -75,6 +75,10 @@ var allowText string
 type allowEntry struct {
 	fn, kind, desc, why string
 	used                int
+	// derived: not reviewed by hand but re-derived from the source on this very run by the
+	// registered range analysis (derive.go); such an entry names whatever the function and
+	// its operands are called today
+	derived bool
 }
 
 // allowList: reviewed partial operations the skeleton treats as non-faulting.  One per line:
@@ -103,13 +107,36 @@ func parseAllow(text string) (*allowList, error) {
 }
 
 func (a *allowList) covers(fn, kind, desc string) bool {
+	ok, _ := a.coversD(fn, kind, desc)
+	return ok
+}
+
+// coversReviewed consults the hand-written entries only: where the verified IR can decide an
+// operation itself (constant index into a length-tracked local) a derived entry must not
+// replace that proof.
+func (a *allowList) coversReviewed(fn, kind, desc string) bool {
 	for _, e := range a.entries {
-		if e.fn == fn && e.kind == kind && (e.desc == "*" || strings.HasPrefix(desc, e.desc)) {
+		if !e.derived && e.fn == fn && e.kind == kind && (e.desc == "*" || strings.HasPrefix(desc, e.desc)) {
 			e.used++
 			return true
 		}
 	}
 	return false
+}
+
+// coversD is covers that also says whether the covering entry was derived on this run.
+// Derived entries are consulted first, so a hand-written entry that has become derivable
+// shows up as unused.
+func (a *allowList) coversD(fn, kind, desc string) (ok, derived bool) {
+	for _, want := range []bool{true, false} {
+		for _, e := range a.entries {
+			if e.derived == want && e.fn == fn && e.kind == kind && (e.desc == "*" || strings.HasPrefix(desc, e.desc)) {
+				e.used++
+				return true, e.derived
+			}
+		}
+	}
+	return false, false
 }
 
 // funcSkel is the regenerated skeleton of one function.
@@ -136,6 +163,9 @@ type analysis struct {
 	Gos []goFact
 	// Accepted: size-dependent partial operations accepted by an idiom or the allow list
 	Accepted []acceptedSite
+	// Derived: index / slice operations accepted because the range analysis proved them in
+	// range on this run (not pinned: they are re-proved whenever the source changes)
+	Derived []acceptedSite
 	// MayNil: functions (FullName#result) that may return a nil pointer / interface with a nil error
 	MayNil []string
 	// HeldSends: handler-package mutexes held across a write to the session (lockfacts.go)
@@ -171,10 +201,16 @@ func recvName(fd *ast.FuncDecl) string {
 }
 
 // analyse regenerates the skeletons of every function in scope from the source under repo.
-func analyse(repo string) (*analysis, error) { return analyseScope(repo, scope, allowText) }
+func analyse(repo string) (*analysis, error) { return analyseScopeDerived(repo, scope, allowText, Derive) }
 
 // analyseScope is analyse for an arbitrary set of packages / files and allow list.
 func analyseScope(repo string, scope map[string]func(file string) bool, allowText string) (*analysis, error) {
+	return analyseScopeDerived(repo, scope, allowText, nil)
+}
+
+// analyseScopeDerived: derive (may be nil) sees the type-checked packages and returns further
+// allow entries that it proved on this run (derive.go).
+func analyseScopeDerived(repo string, scope map[string]func(file string) bool, allowText string, derive DeriveFunc) (*analysis, error) {
 	al, err := parseAllow(allowText)
 	if err != nil {
 		return nil, err
@@ -187,6 +223,25 @@ func analyseScope(repo string, scope map[string]func(file string) bool, allowTex
 	})
 	if err != nil {
 		return nil, err
+	}
+	if derive != nil {
+		extra, err := derive(fset, loadedPackages(pkgs, scope))
+		if err != nil {
+			return nil, fmt.Errorf("derived allow entries: %v", err)
+		}
+		dl, err := parseAllow(extra)
+		if err != nil {
+			return nil, fmt.Errorf("derived allow entries: %v", err)
+		}
+		for _, e := range dl.entries {
+			// only arithmetic-guarded index / slice operations can be derived; anything else
+			// would be a way around the reviewed list
+			if e.kind != "index" && e.kind != "slice" || e.desc == "*" {
+				return nil, fmt.Errorf("derived allow entry of kind %q (%s %s)", e.kind, e.fn, e.desc)
+			}
+			e.derived = true
+			al.entries = append(al.entries, e)
+		}
 	}
 	an := &analysis{Allow: al}
 	summaries := mayNilSummaries(pkgs, func(name string) bool { return al.covers(name, "maynil-callee", "*") })
@@ -201,7 +256,7 @@ func analyseScope(repo string, scope map[string]func(file string) bool, allowTex
 		rel := strings.TrimPrefix(strings.TrimPrefix(l.Path, modPath), "/")
 		seen[rel] = true
 		filter := scope[rel]
-		x := &xl{fset: fset, l: l, repo: repo, sites: &an.Sites, allow: al, ctorMaps: ctorMapFields(l), mayNil: summaries, acceptedOut: &an.Accepted}
+		x := &xl{fset: fset, l: l, repo: repo, sites: &an.Sites, allow: al, ctorMaps: ctorMapFields(l), mayNil: summaries, acceptedOut: &an.Accepted, derivedOut: &an.Derived}
 		if rel == "" {
 			an.Locks = lockFactsOf(l, only("session.go"), fset)
 			an.HasLocks = true
@@ -272,6 +327,7 @@ func Facts(repo string) (string, error) {
 		fmt.Fprintf(&b, "/- extraction failed: %s -/\n", strings.ReplaceAll(err.Error(), "-/", "- /"))
 		b.WriteString("def skeletons : Option (List (String × Stmt)) := none\n")
 		b.WriteString("def trustedSites : Nat := 0\n")
+		b.WriteString("def derivedSites : Nat := 0\n")
 		b.WriteString(leanLockFacts(nil, err))
 		b.WriteString(leanGoFacts(nil, false))
 		b.WriteString(leanPageTurns(nil, false))
@@ -299,11 +355,21 @@ func Facts(repo string) (string, error) {
 	}
 	b.WriteString("]\n\n")
 	fmt.Fprintf(&b, "/-- functions in scope: %d, of which %d have a skeleton without any partial operation -/\ndef functionsInScope : Nat := %d\ndef trivialFunctions : Nat := %d\n\n", len(an.Funcs), trivial, len(an.Funcs), trivial)
-	used := 0
+	used, derived := 0, 0
 	for _, e := range an.Allow.entries {
-		used += e.used
+		if e.derived {
+			derived += e.used
+		} else {
+			used += e.used
+		}
 	}
 	fmt.Fprintf(&b, "/-- partial operations accepted through the reviewed allow list (harness/c09/allow.txt) -/\ndef trustedSites : Nat := %d\n\n", used)
+	fmt.Fprintf(&b, "/-- index / slice operations accepted because the range analysis (harness/c19/arith.go) proved\nthem in range on this run; not pinned -/\ndef derivedSites : Nat := %d\n", derived)
+	b.WriteString("/-! Derived sites:\n")
+	for _, d := range an.Derived {
+		fmt.Fprintf(&b, "  %s %s %s\n", d.Fn, d.Kind, strings.ReplaceAll(d.Expr, "-/", "- /"))
+	}
+	b.WriteString("-/\n\n")
 	if an.HasLocks {
 		b.WriteString(leanLockFacts(an.Locks, nil))
 	} else {
